@@ -3,17 +3,24 @@ from . import core
 
 MIRROR = {'parse': 'rdparse', 'parsen': 'rdparsen', 'parseseq': 'rdparseseq', 'parseseqn': 'rdparseseqn', 'trunc': 'rdtrunc'}
 
-TRUSTED = ('the hand models Model/ContainerV2.parseV2, setThreadMap, Model/ContainerV3.seekUntil, the part of parseV3 up to the '
-           'end of the chunk loop and the dispatch of parse are tied to the SOURCE TEXT of kd_buf_parser.py by translation: '
-           'tools/gen_pyir_rd.py (pure ast) turns seek_until, set_thread_map, parse_v2, parse_v3 (to the end of its chunk loop) '
-           'and parse + self.versions into the Python-subset IR of Model/PyIRRd on every run; source_is_expected_ir says the '
+TRUSTED = ('the hand models Model/ContainerV2.parseV2, setThreadMap, Model/ContainerV3.seekUntil, the WHOLE of parseV3 (header, scans, '
+           'thread map, chunk loop, and the tail tailV3 / tailOfBlocks / dispatchBlock(s) / logLoop) and the dispatch of parse are '
+           'tied to the SOURCE TEXT of kd_buf_parser.py by translation: tools/gen_pyir_rd.py (pure ast) turns seek_until, '
+           'set_thread_map, parse_v2, parse_v3 (from its first statement to its END: reader.seek(-8, 1), the additional-data '
+           'range, the five attribute resets, the block loop with its if/elif chain on block.tag, the log loop) and '
+           'parse + self.versions into the Python-subset IR of Model/PyIRRd on every run; source_is_expected_ir says the '
            'generated program is the one of Spec/PyIRRdExpected; parse_is_interpreted_source (via Proofs/PyIRRd: '
-           'runSeek_expected, execTm_expected, runGen_parseV2, parseV3_via_ir, runDispatch_expected) says that program, run '
-           'by the interpreter PyIRRd.exec over the model\'s reader with its read counters, IS parse — for every byte string '
-           'and prior state.  Trusted there: the translator, the interpreter as semantics of that subset (tested against '
-           'CPython by the sections *-ir), the construct parsers as primitives (kd_header_v2 / Aligned(8, kd_header_v3) / '
-           'kd_v3_threadmap / Int64ul mean headerV2 / headerV3 / prefixedBytes+greedyEntries / int64ul of Model/Construct), '
-           'the tail of parse_v3 behind the chunk loop (hand model tailV3)')
+           'runSeek_expected, execTm_expected, runGen_parseV2, parseV3_via_ir with chunk_loop and tail_exec = block_body / '
+           'blocks_loop / log_loop, runDispatch_expected) says that program, run by the interpreter PyIRRd.exec over the '
+           'model\'s reader with its read counters, IS parse — for every byte string and prior state; viaV3 is nothing but the '
+           'translated generator run to its end.  Trusted there: the translator, the interpreter as semantics of that subset '
+           '(tested against CPython by the sections *-ir, which now exercise the translated tail too), and what the code '
+           'CALLS, kept as primitives / parameters: the construct parsers (kd_header_v2 / Aligned(8, kd_header_v3) / '
+           'kd_v3_threadmap / Int64ul / kd_v3_additional_data mean headerV2 / headerV3 / prefixedBytes+greedyEntries / int64ul / '
+           'greedyRange blockElem of Model/Construct + Model/ContainerV3), plistlib.loads (the parameter plist : payload -> what '
+           'the parser reads of the dict), bytes.decode (validUtf8), OsLogEvent.from_raw_log_event (fromRawLog: the fields the '
+           'container parser depends on), and the representation of the parser attributes by V3Meta (dict contents the parser '
+           'never looks into are opaque)')
 
 
 def enable(rep):
